@@ -30,7 +30,13 @@ MiscSet == { [Mk(FALSE, i, d, 0, "none", FALSE, tg, FALSE, FALSE) EXCEPT !.misc 
 \* ... and rules with two negated modifiers (~third-party, ~match-case): each counts
 NegSet == { [Mk(w, i, d, 0, "off", FALSE, FALSE, FALSE, FALSE) EXCEPT !.mcase = mc] :
                 w \in BOOLEAN, i \in BOOLEAN, d \in DomF, mc \in {"none", "off", "on"} }
-Pool == SetToSeq(PoolSet \cup MiscSet \cup NegSet)
+\* ... and exceptions with document-level modifiers - the ones that only switch cosmetic filtering off, the ones that
+\* change how sub-requests are blocked, and $document: an exception is an exception, whatever it is for
+DocSet == { [Mk(TRUE, i, d, 0, "none", FALSE, FALSE, FALSE, FALSE) EXCEPT !.docOpts = o] :
+                i \in BOOLEAN, d \in DomF,
+                o \in { {"elemhide"}, {"generichide"}, {"jsinject"}, {"content"}, {"urlblock"}, {"genericblock"},
+                        {"elemhide", "jsinject", "urlblock", "content", "extension"} } }
+Pool == SetToSeq(PoolSet \cup MiscSet \cup NegSet \cup DocSet)
 N == Len(Pool)
 
 Rk == [i \in 1..N |-> Rank(Pool[i])]
